@@ -293,7 +293,25 @@ def _enclosing(ctx):
 # 7-shell lattice oracle on the real code; see seeded/C01-r1-shell-heuristic-abs/).  a, b = cell sides, angle in radians.
 SHELL_WITNESSES = [
     {'name': 'skewed-30deg-p1.9', 'a': 3.2, 'b': 3.2 / 1.9, 'angle': 0.5235987755982988, 'min_shells': 2,
-     'why': 'p1 unit squares rotated 9.5 deg in the cell a=3.2, b=a/1.9, angle=pi/6 overlap with the lattice image (1,-2)'},
+     'why': 'p1 unit squares rotated 9.5 deg in the cell a=3.2, b=a/1.9, angle=pi/6 overlap with the lattice image (1,-2) (seeded/C01-r1)'},
+    {'name': 'p1.5-35deg', 'a': 2.5, 'b': 1.6666666666666667, 'angle': 0.6108652381980153, 'min_shells': 2,
+     'why': 'p1 unit squares rotated 85.0 deg: the only overlapping lattice images lie in the 2nd shell (findings/shell_search.rs)'},
+    {'name': 'p1.5-40deg', 'a': 2.2, 'b': 1.4666666666666668, 'angle': 0.6981317007977318, 'min_shells': 2,
+     'why': 'p1 unit squares rotated 0.0 deg: the only overlapping lattice images lie in the 2nd shell (findings/shell_search.rs)'},
+    {'name': 'p1.9-30deg', 'a': 2.7, 'b': 1.4210526315789476, 'angle': 0.5235987755982988, 'min_shells': 2,
+     'why': 'p1 unit squares rotated 80.0 deg: the only overlapping lattice images lie in the 2nd shell (findings/shell_search.rs)'},
+    {'name': 'p1.9-35deg', 'a': 2.8, 'b': 1.4736842105263157, 'angle': 0.6108652381980153, 'min_shells': 2,
+     'why': 'p1 unit squares rotated 5.0 deg: the only overlapping lattice images lie in the 2nd shell (findings/shell_search.rs)'},
+    {'name': 'p2.9-85deg', 'a': 1.7, 'b': 0.5862068965517241, 'angle': 1.4835298641951802, 'min_shells': 2,
+     'why': 'p1 unit squares rotated 40.0 deg: the only overlapping lattice images lie in the 2nd shell (findings/shell_search.rs)'},
+    {'name': 'p3.5-85deg', 'a': 1.8, 'b': 0.5142857142857143, 'angle': 1.4835298641951802, 'min_shells': 2,
+     'why': 'p1 unit squares rotated 40.0 deg: the only overlapping lattice images lie in the 2nd shell (findings/shell_search.rs)'},
+    {'name': 'p5.0-85deg', 'a': 1.6, 'b': 0.32, 'angle': 1.4835298641951802, 'min_shells': 2,
+     'why': 'p1 unit squares rotated 40.0 deg: the only overlapping lattice images lie in the 2nd shell (findings/shell_search.rs)'},
+    {'name': 'p8.0-80deg', 'a': 2.8, 'b': 0.35, 'angle': 1.3962634015954636, 'min_shells': 2,
+     'why': 'p1 unit squares rotated 35.0 deg: the only overlapping lattice images lie in the 2nd shell (findings/shell_search.rs)'},
+    {'name': 'p8.0-85deg', 'a': 1.8, 'b': 0.225, 'angle': 1.4835298641951802, 'min_shells': 2,
+     'why': 'p1 unit squares rotated 40.0 deg: the only overlapping lattice images lie in the 2nd shell (findings/shell_search.rs)'},
 ]
 
 
